@@ -408,6 +408,93 @@ def ob_conjugate_large_data():
     return Ob("C14.conjugate.large_data", "B", body, clause="exact at the true posterior also when the log marginal likelihood is below the logarithm of the smallest double (bounded)", funcs=FUNCS)
 
 
+def ob_conjugate_shipped(kind):
+    """conjugate pairs written with the distributions torchtree ships (torchtree.distributions.normal.Normal with its `precision`
+    parameterisation, inverse_gamma.InverseGamma), over hyper-parameters of very different magnitude (a vague prior has precision 1e-10):
+    every objective equals the closed-form log marginal likelihood"""
+    def body():
+        from torchtree.core.parameter import Parameter
+        from torchtree.distributions.distributions import Distribution
+        from torchtree.distributions.inverse_gamma import InverseGamma
+        from torchtree.distributions.joint_distribution import JointDistributionModel
+        from torchtree.distributions.normal import Normal
+        t64 = lambda v: torch.tensor(v, dtype=torch.float64)
+        P = lambda v: Parameter(None, t64([v]))
+        y = t64([0.3, -1.1, 0.8, 2.0, 0.1])
+        n_obs = len(y)
+        n = 0
+        configs = []
+        if kind == "normal.precision":
+            for t0 in (1e-10, 1e-8, 1e-6, 1e-3, 1.0, 1e4):
+                for tau in (0.25, 40.0):
+                    configs.append((t0, tau))
+        else:
+            for a, b in ((1e-3, 1e-3), (2.0, 3.0), (50.0, 0.02), (0.5, 400.0)):
+                configs.append((a, b))
+        for cfg in configs:
+            if kind == "normal.precision":
+                t0, tau = cfg
+                m0 = 0.7
+                mu = Parameter("mu", t64([0.2]))
+                prior = Distribution("prior", Normal, mu, {"loc": P(m0), "precision": P(t0)})
+                like = Distribution("like", Normal, Parameter("y", y), {"loc": mu, "precision": P(tau)})
+                tn = t0 + n_obs * tau
+                mn = (t0 * m0 + tau * float(y.sum())) / tn
+                q = JointDistributionModel("var", [Distribution("q", Normal, mu, {"loc": P(mn), "precision": P(tn)})])
+                # log Z = log N(y | m0 1, tau^-1 I + t0^-1 11') in closed form (matrix determinant lemma / Sherman-Morrison)
+                r = y - m0
+                quad = tau * float((r * r).sum()) - (tau * float(r.sum())) ** 2 / tn
+                logz = -0.5 * n_obs * math.log(2 * math.pi) + 0.5 * n_obs * math.log(tau) + 0.5 * math.log(t0) - 0.5 * math.log(tn) - 0.5 * quad
+                cur = mu
+            else:
+                a, b = cfg
+                m = 0.4
+                v = Parameter("v", t64([1.3]))
+                prior = Distribution("prior", InverseGamma, v, {"concentration": P(a), "rate": P(b)})
+
+                class NormalVar(torch.distributions.Normal):
+                    def __init__(self, loc, variance, validate_args=None):
+                        super().__init__(loc, variance.sqrt(), validate_args=validate_args)
+                like = Distribution("like", NormalVar, Parameter("y", y), {"loc": P(m), "variance": v})
+                an = a + 0.5 * n_obs
+                bn = b + 0.5 * float(((y - m) ** 2).sum())
+                q = JointDistributionModel("var", [Distribution("q", InverseGamma, v, {"concentration": P(an), "rate": P(bn)})])
+                logz = -0.5 * n_obs * math.log(2 * math.pi) + a * math.log(b) - math.lgamma(a) + math.lgamma(an) - an * math.log(bn)
+                cur = v
+            joint = JointDistributionModel("joint", [prior, like])
+            for okind in ("ELBO", "KLpq", "VR0.5", "CUBO"):
+                for samples in ((1,), (4,), (3, 2)):
+                    if okind == "KLpq" and len(samples) > 1:
+                        continue                       # open finding C14.value2d.KLpq (multi-sample shapes)
+                    obj = make_objective(okind, q, joint, samples)
+                    torch.manual_seed(5)
+                    try:
+                        val = float(obj())
+                    except Exception as e:
+                        from vt.scenario import _raised_in_repo
+                        if _raised_in_repo(e):
+                            raise Refuted("%s, %s with hyper-parameters %s, samples %s: raises %s: %s" % (okind, kind, cfg, samples, type(e).__name__, e),
+                                          witness={"objective": okind, "kind": kind, "config": list(cfg)}, confirmed=True,
+                                          replay={"kind": "custom", "contract": "C14", "func": "replay_conjugate_shipped", "args": {"kind": kind}})
+                        raise
+                    n += 1
+                    if not (val == val) or abs(val - logz) > 1e-8 * max(1.0, abs(logz)):
+                        raise Refuted("%s, %s with hyper-parameters %s, q = posterior, samples %s: returns %r, log marginal likelihood %r" % (okind, kind, cfg, samples, val, logz),
+                                      witness={"objective": okind, "kind": kind, "config": list(cfg), "value": val, "log_marginal": logz}, confirmed=True,
+                                      replay={"kind": "custom", "contract": "C14", "func": "replay_conjugate_shipped", "args": {"kind": kind}})
+        return {"backend": "concrete", "cases": n, "bounded": "%d hyper-parameter settings, 5 observations, sample shapes (1,), (4,), (3,2)" % len(configs),
+                "statement": "%s: %d evaluations equal the closed-form log marginal likelihood (1e-8)" % (kind, n)}
+    return Ob("C14.conjugate.shipped[%s]" % kind, "B", body, clause="exact at the true posterior for the shipped distributions over vague and sharp hyper-parameters (bounded)", funcs=FUNCS)
+
+
+def replay_conjugate_shipped(args):
+    try:
+        ob_conjugate_shipped(args["kind"]).fn()
+    except Refuted as e:
+        return False, e.detail
+    return True, "held"
+
+
 def replay_conjugate_large_data(args):
     try:
         ob_conjugate_large_data().fn()
@@ -448,6 +535,8 @@ def obligations(tier, seed):
         for kind in ("ELBO", "KLpq"):
             obs.append(ob_conjugate_transformed(kind, naming))
     obs.append(ob_conjugate_large_data())
+    for kind in ("normal.precision", "inverse_gamma"):
+        obs.append(ob_conjugate_shipped(kind))
     R = (1, 2, 3) if tier == "quick" else (1, 2, 3, 4, 5)
     kinds = ["ELBO", "KLpq", "VR0", "VR0.5", "CUBO"]
     for kind in kinds:
